@@ -2,8 +2,8 @@
    (The tie between these condition trees and the parser's Expr trees - precedence, brackets,
    the parity of prefix `not`, the BETWEEN desugaring - is the subject of model/Parser.v and of
    the bounded-exhaustive differential test.) *)
-From Coq Require Import List ZArith Bool.
-From FS Require Import lib.Str gen.OpsGen gen.CmpGen proofs.C03_negate.
+From Coq Require Import List ZArith Bool String.
+From FS Require Import lib.Str lib.Res gen.OpsGen gen.FieldGen gen.CmpGen model.Lexer model.Expr model.Parser proofs.C03_negate proofs.BoolRoundtrip proofs.RoundtripPfuel.
 Import ListNotations.
 Open Scope Z_scope.
 
@@ -37,7 +37,29 @@ Proof. exact between_inclusive. Qed.
 Theorem C03_not_between_complement : forall x a b, not_between x a b = negb (between x a b).
 Proof. exact not_between_complement. Qed.
 
+(* the PARSER implements that algebra: for every formula F built from atoms `column OP digits` with
+   AND, OR, prefix NOT and brackets, rendered to tokens with the minimal bracketing of the documented
+   precedence (AND tighter than OR, NOT tightest), the model of Parser::parse_expr run with the parser's
+   own fuel consumes exactly the rendered tokens and returns a tree whose meaning under
+   Searcher::conforms (esem: And/Or with the short circuit) is the Boolean denotation of F - for any
+   atom oracle under which negating the operator complements the atom (the always-present columns,
+   C03_negate_complement_* above).  Covers precedence, brackets, the parity of stacked NOTs and the
+   De Morgan push-down that `not ( ... )` performs on the tree. *)
+Theorem C03_parser_boolean_algebra : forall (asem : Field -> Op -> str -> bool),
+  (forall f o lit, asem f (Op_negate o) lit = negb (asem f o lit)) ->
+  forall F pre post rp wp, wf_b F -> post_ok_b post ->
+  let T := (pre ++ render_b 0 F ++ post)%list in
+  exists e, parse_expr_top T (mkPS (List.length pre) rp wp) = Ok (ROk (Some e), mkPS (List.length pre + List.length (render_b 0 F)) rp wp)
+            /\ esem asem e = denote asem F.
+Proof. exact bool_roundtrip_pfuel. Qed.
+(* non-vacuity: a formula with every connective meets the hypotheses *)
+Example C03_parser_example :
+  wf_b (FOr (FAtom FSize OpGt (s "1"%string)) (FAnd (FNot (FParen (FOr (FAtom FSize OpLt (s "5"%string)) (FAtom FUid OpEq (s "0"%string))))) (FAtom FGid OpNe (s "7"%string))))
+  /\ post_ok_b [].
+Proof. cbn. repeat split; discriminate. Qed.
+
 Print Assumptions C03_negate_involutive.
+Print Assumptions C03_parser_boolean_algebra.
 Print Assumptions C03_negate_complement_int.
 Print Assumptions C03_negate_complement_bool.
 Print Assumptions C03_negate_complement_date.
